@@ -393,8 +393,12 @@ def driver():
     return _bin
 
 
-def run_impl(cases):
-    return common.run_driver(driver(), cases, args="-test.run ^TestDriver$", shards=8)
+def run_impl(cases, batch=1600):
+    """the test binary keeps every chain it created alive until it exits, so large runs are fed in batches"""
+    out = []
+    for i in range(0, len(cases), batch):
+        out += common.run_driver(driver(), cases[i:i + batch], args="-test.run ^TestDriver$", shards=8)
+    return out
 
 
 def coq_file(rows):
@@ -513,7 +517,7 @@ def selftest(good, out):
 def correspond(tier, seed, model_ok):
     out = Outcome()
     r = Rng(seed)
-    n = 300 if tier == "quick" else 6000
+    n = 300 if tier == "quick" else 5000
     cases = [gen_case(r.fork(i), tier) for i in range(n)]
     corpus = common.load_corpus(PROP)
     good = run_cases([WITNESS, WITNESS_F9] + corpus + cases, model_ok, out, "q")
